@@ -407,6 +407,34 @@ def run_limit(sx, cfg, env):
         sx.require(c == (1 if x > lv else (-1 if x < lv else 0)), "compare-odx-values-is-a-three-way-comparison")
 
 
+def run_limitbytes(sx, cfg, env):
+    """byte-field limits (ODX 7.3.6.5: the shorter operand is padded with zeros on the right,
+    then the operands compare like big-endian numbers of the same length)"""
+    from odxtools.compumethods.limit import Limit, IntervalType
+    from odxtools.odxtypes import DataType, compare_odx_values
+    n = cfg["n"]
+    x = sx.bytes("x", n)
+    lv = bytes.fromhex(cfg["value"])
+    lim = Limit(value_raw=cfg["value"], value_type=DataType.A_BYTEFIELD,
+                interval_type=None if cfg["itype"] is None else IntervalType(cfg["itype"]))
+    it = cfg["itype"] or "CLOSED"
+    m = max(n, len(lv))
+    xi = core.int_from_bytes(x, "big") if sx.sym else int.from_bytes(x, "big")
+    xi = xi * (1 << (8 * (m - n)))
+    li = int.from_bytes(lv.ljust(m, b"\x00"), "big")
+    up = bool(lim.complies_to_upper(x))
+    lo = bool(lim.complies_to_lower(x))
+    if it == "INFINITE":
+        sx.require(s_and(up, lo), "infinite-or-absent-limit-admits-everything")
+    else:
+        sx.require(up == bool(xi < li if it == "OPEN" else xi <= li), "upper-limit-honours-interval-type")
+        sx.require(lo == bool(xi > li if it == "OPEN" else xi >= li), "lower-limit-honours-interval-type")
+    c = compare_odx_values(x, lv)
+    sx.require(c == (1 if xi > li else (-1 if xi < li else 0)), "compare-odx-values-is-a-three-way-comparison")
+    c2 = compare_odx_values(lv, x)
+    sx.require(c2 == -c, "compare-odx-values-is-antisymmetric")
+
+
 LIM = {"quick": explore.Limits(max_paths=400, wall_s=240, timeout_ms=30000),
        "thorough": explore.Limits(max_paths=2000, wall_s=1500, timeout_ms=120000)}
 HARNESSES = {
@@ -420,6 +448,8 @@ HARNESSES = {
                   "must_cover": ["in-scale", "require:text-encodes-to-inverse-value-or-lower-limit"]},
     "limit": {"build": lambda c: None, "run": run_limit, "width": 64, "limits": LIM,
               "must_cover": ["require:upper-limit-honours-interval-type"]},
+    "limitbytes": {"build": lambda c: None, "run": run_limitbytes, "width": 64, "limits": LIM,
+                   "must_cover": ["require:compare-odx-values-is-a-three-way-comparison"]},
 }
 
 
@@ -497,7 +527,8 @@ def methods(tier):
     tt = {"cat": "TEXTTABLE", "scales": [
         {"lo": 0, "hi": 0, "const": "off"}, {"lo": 1, "hi": 10, "const": "low"},
         {"lo": {"v": 10, "it": "OPEN"}, "hi": {"v": 20, "it": "OPEN"}, "const": "mid"},
-        {"lo": 20, "hi": 20, "const": "edge"}, {"lo": 30, "const": "only"}]}
+        {"lo": 20, "hi": 20, "const": "edge"}, {"lo": 30, "const": "only"},
+        {"hi": 40, "const": "upper-only"}]}
     out.append(("TEXTTABLE", "A_UINT32", "A_UNICODE2STRING", tt, "five"))
     tt2 = {"cat": "TEXTTABLE", "scales": [
         {"lo": -2, "hi": 2, "const": "neutral", "inv": 0}, {"lo": 3, "hi": 9, "const": "high", "inv": 5},
@@ -546,6 +577,11 @@ def configs(tier, seed):
             for value in (None, 0, 7, -3) if vt != "A_UINT32" else (None, 0, 7):
                 out.append({"harness": "limit", "vt": vt, "itype": itype, "value": value, "bits": 10,
                             "id": f"limit/{vt}/{itype}/{value}", "build": {}})
+    for n in (1, 2, 3):
+        for itype in (None, "OPEN", "CLOSED", "INFINITE"):
+            for value in ("10", "1000", "0fff", "00"):
+                out.append({"harness": "limitbytes", "n": n, "itype": itype, "value": value,
+                            "id": f"limitbytes/{n}/{itype}/{value}", "build": {}})
     return out
 
 
